@@ -110,6 +110,95 @@ def writer_trace(T, M, meth, x):
     return trace, out, sp
 
 
+def long_reader_rule(rep, F, C, rule):
+    """digit loop of a TYPE_LONG reader, decided by evaluating the extracted count, per-iteration update and result terms on small integers"""
+    from ..sve import eval_term
+    f = C.ns.get("dispatch", {}).get("l") if isinstance(C.ns.get("dispatch"), dict) else None
+    if not isinstance(f, FuncRef):
+        rep.ob(rule, "xdis.marsh.%s.dispatch" % C.name, "reader-for:'l'", False, expected="a load_long function", derived=repr(f))
+        return
+    size, digit = Sym("size", "int"), Sym("digit", "int")
+
+    def hook(spec, name, fv, args, kw, node):
+        base = name.split(".")[-1]
+        if base in ("_r_long", "r_long"):
+            return size
+        if base in ("_r_short", "r_short"):
+            spec.effect("rd", "i16", digit, node=node)
+            return digit
+        return NotImplemented
+    me = Instance(C)
+    me.attrs.update(bufstr=Sym("buf", "bytes"), bufpos=Sym("p", "int"), _read=Sym("readfunc", "func"), _stringtable=Sym("stringtable", "list"), python_version=None)
+    sp = Spec(F, hooks=[hook])
+    out = sp.run(f, [me])
+    rep.analysed(f.qualname)
+    FQ = f.qualname
+    loops = [e.args[3] for e in sp.effects if e.kind == "loop" and any(x.kind == "rd" for x in e.args[3].effects)]
+    if len(loops) != 1:
+        rep.ob(rule, FQ, "long:digit-loop", False, expected="one loop reading one 16-bit digit per iteration", derived=len(loops))
+        return
+    ls = loops[0]
+    nrd = sum(1 for x in ls.effects if x.kind == "rd")
+    # (a) number of iterations
+    cnt_ok, cnt_got = False, show(ls.cond)
+    c = ls.cond
+    if isinstance(c, Op) and c.op == "iter-more" and isinstance(c.args[0], Op) and c.args[0].op == "range":
+        ra = c.args[0].args
+        try:
+            got = [len(range(*[eval_term(a, {repr(size): sv}) for a in ra])) for sv in (-3, 0, 1, 4)]
+            cnt_ok = got == [3, 0, 1, 4]
+            cnt_got = got
+        except Exception as ex:
+            cnt_got = "not evaluable: %s" % ex
+    rep.ob(rule, FQ, "long:digit-count", cnt_ok and nrd == 1, expected="|size| iterations, one digit each (sizes -3, 0, 1, 4 -> 3, 0, 1, 4)", derived=[cnt_got, "%d reads per iteration" % nrd],
+           msg="the number of 15-bit digits read is not the absolute value of the stored size")
+    # (b) accumulation
+    lv = [(g, l) for g, l in leaves(ls.out) if isinstance(l, (Fall,))]
+    accs = []
+    for g, l in lv:
+        for n, v in l.env.items():
+            if isinstance(n, str) and n in ls.pre and repr(digit) in repr(v) and n not in accs:
+                accs.append(n)
+    acc_ok, acc_got = False, accs
+    if len(accs) == 1 and len(lv) == 1:
+        a = accs[0]
+        init = ls.pre.get(a)
+        idx = Sym("%s:idx" % ls.tag)
+        head = Sym("%s:%s" % (ls.tag, a))
+        try:
+            vals = []
+            for dv, iv, hv in ((3, 2, 5), (0x7FFF, 0, 0), (1, 3, 1 << 44)):
+                vals.append(eval_term(lv[0][1].env[a], {repr(digit): dv, repr(idx): iv, repr(head): hv}))
+            want = [5 + (3 << 30), 0x7FFF, (1 << 44) + (1 << 45)]
+            acc_ok = vals == want and (init == 0 and not isinstance(init, bool))
+            acc_got = {"update": show(lv[0][1].env[a]), "initial": show(init), "evaluated": vals}
+        except Exception as ex:
+            acc_got = "not evaluable: %s" % ex
+    rep.ob(rule, FQ, "long:accumulation", acc_ok, expected="x starts at 0; x' = x + (digit << 15*i)", derived=acc_got,
+           msg="the digits of a multi-digit integer are combined with the wrong weights")
+    # (c) sign
+    rets = [(g, l.value) for g, l in leaves(out) if isinstance(l, Ret)]
+    sign_ok, sign_got = False, [show(v) for g, v in rets]
+    if len(accs) == 1 and rets:
+        after = Sym("after-%s:%s" % (ls.tag, accs[0]))
+        try:
+            res = []
+            for sv in (-3, 2):
+                val = {repr(size): sv, repr(after): 7}
+                r = None
+                for g, v in rets:
+                    if all(eval_term(c_, val) for c_ in g if "loop-exit" not in show(c_)):
+                        r = eval_term(v, val)
+                        break
+                res.append(r)
+            sign_ok = res == [-7, 7]
+            sign_got = {"result": sign_got, "evaluated(size=-3, 2; magnitude 7)": res}
+        except Exception as ex:
+            sign_got = "not evaluable: %s" % ex
+    rep.ob(rule, FQ, "long:sign", sign_ok, expected="-magnitude when the stored size is negative, +magnitude otherwise", derived=sign_got,
+           msg="the sign of a multi-digit integer does not follow the sign of its stored size")
+
+
 def run(rep, tier):
     rep.explanation = ("specialisation of every writer of xdis.marsh._Marshaller (symbolic value, byte sink as an uninterpreted call) and of every reader of "
                        "_FastUnmarshaller: emitted / consumed layout as terms, compared with marshal.c's format table; taint classification of every sink argument")
@@ -120,6 +209,8 @@ def run(rep, tier):
     rep.rule("R6", "dump() and dumps(): the marshaller's chunk sink is a local buffer converted to bytes by dumps(); what dump() writes to the file is dumps()'s result")
     rep.rule("R7", "the file-based reader (load): the type byte is decoded before it indexes the str-keyed dispatch table; r_byte/r_short/r_long/r_long64 "
                    "return the little-endian integer of the bytes read")
+    rep.rule("R8", "TYPE_LONG in both readers: |size| 16-bit digits are read, digit i contributes digit << 15*i to an accumulator that starts at 0, and the result is "
+                   "negated exactly when the stored size is negative")
     rep.rule("R4", "fast readers consume the layout of their type code; r_long/r_short are little-endian with sign extension from the top bit")
     T = tables()
     F = T.F
@@ -441,5 +532,8 @@ def run(rep, tier):
         rep.ob("R7", f.qualname, "integer-from-bytes", ok_int and not bad, expected="little-endian %s integer of the %d bytes read" % ("unsigned" if meth == "r_byte" else "signed", nbytes),
                derived=(["returns the bytes object %s" % r for r in raw] or bad[:3] or "equal on %d byte patterns" % len(pats)) if rets else "no return",
                msg="%s does not turn the bytes read from the file into the integer they encode" % meth)
+    # ---------------------------------------------------------------- R8 multi-digit integers in both readers
+    for C in (FU, UMC):
+        long_reader_rule(rep, F, C, "R8")
     rep.assumptions = ["reference/marshal_format.json (marshal.c type codes and layouts)", "value equality of dumps/loads results is not decided (repr/float parsing, digit arithmetic)",
                        "the host's marshal.loads accepts TYPE_FLOAT/TYPE_COMPLEX/TYPE_LONG in every version 3.8-3.13 (marshal.c)"]
